@@ -8,6 +8,7 @@ package main
 import (
 	"fmt"
 	"math/rand/v2"
+	"math"
 	"net"
 	"net/http"
 	"net/url"
@@ -20,7 +21,7 @@ import (
 )
 
 const rule = "cases = (header line lists for X-Forwarded-For / Forwarded built from entries with ground truth: public/private IPv4/IPv6 in plain, port, bracket, zone, quoted, IPv4-mapped notations, Forwarded parameters, junk, empty, obfuscated) " +
-	"x (resolver and its parameters: counts 1-4, limits 1-5, default and optional range sets); each case is also re-run with attacker-chosen material prepended on the left; " +
+	"x (resolver and its parameters: counts 1-4 and huge (up to MaxUint), limits 1-5 and huge (up to MaxUint), default and optional range sets); each case is also re-run with attacker-chosen material prepended on the left; " +
 	"distinct by (header lists, resolver); non-trivial when the list has >= 2 entries; plus the default-range audit over one address per IPv4 /16, range boundaries and IPv6 samples"
 
 type entry struct {
@@ -34,7 +35,7 @@ var pub4 = []string{"8.8.8.8", "1.1.1.1", "93.184.216.34", "203.0.114.9", "192.0
 var priv4 = []string{"10.0.0.1", "10.255.255.254", "172.16.0.1", "172.31.255.1", "192.168.1.1", "127.0.0.1", "169.254.10.10", "100.64.0.1", "192.0.2.55", "198.18.0.1", "198.19.255.254"}
 var pub6 = []string{"2606:4700:4700::1111", "2a00:1450:4001:81b::200e", "2400:cb00::1"}
 var priv6 = []string{"::1", "fe80::1", "fc00::1", "fd12:3456::1", "2001:db8::7"}
-var junk = []string{"\"", "unknown", "_hidden", "", "junk", "1.2.3", "1.2.3.4.5", "gggg::1", "1.2.3.4:80:90", "0.0.0.0", "::", "-", "a.b.c.d", "300.1.1.1", "1.1.1.1 2.2.2.2"}
+var junk = []string{"\"", "unknown", "_hidden", "", "junk", "1.2.3", "1.2.3.4.5", "gggg::1", "1.2.3.4:80:90", "0.0.0.0", "::", "-", "a.b.c.d", "300.1.1.1", "1.1.1.1 2.2.2.2", "8.8.8.8%a%b", "[2606:4700::1111%x%y]:443", "fe80::1%a%b", "%eth0"}
 
 func genEntry(r *rand.Rand, forwarded bool) entry {
 	if r.IntN(5) == 0 {
@@ -250,17 +251,17 @@ func one(run *kit.Run, r *rand.Rand) {
 		}
 	}
 	// rightmost trusted count
-	for _, cnt := range []uint{1, 2, 3, 4} {
+	for _, cnt := range []uint{1, 2, 3, 4, math.MaxUint, 1 << 63, 1<<32 + 1, 1<<63 + 2} {
 		res, err := clientip.NewRightmostTrustedCount(hk, cnt)
 		if err != nil {
 			run.Violate("ctor", fmt.Sprintf("NewRightmostTrustedCount(%d): %v", cnt, err), nil)
 			continue
 		}
 		want := "error"
-		if int(cnt) <= len(rev) && rev[cnt-1].valid {
+		if cnt <= uint(len(rev)) && rev[cnt-1].valid {
 			want = rev[cnt-1].ip
 		}
-		check(fmt.Sprintf("RightmostTrustedCount(%d)", cnt), res, want, true, int(cnt) > len(rev))
+		check(fmt.Sprintf("RightmostTrustedCount(%d)", cnt), res, want, true, cnt > uint(len(rev)))
 	}
 	// rightmost non private (default ranges)
 	{
@@ -295,7 +296,7 @@ func one(run *kit.Run, r *rand.Rand) {
 		}
 	}
 	// leftmost non private with limits
-	for _, lim := range []uint{1, 2, 3, 5} {
+	for _, lim := range []uint{1, 2, 3, 5, math.MaxUint, 1 << 63, 1<<32 + 2, 1<<63 + 1} {
 		res, err := clientip.NewLeftmostNonPrivate(hk, lim)
 		if err != nil {
 			run.Violate("ctor", fmt.Sprintf("NewLeftmostNonPrivate(%d): %v", lim, err), nil)
